@@ -7,6 +7,7 @@ package main
 //   A lines: the same rows through Emit with a synchronous sink (single producer): the sink must see
 //            exactly the non-filtered EmitSync results, in emission order.
 //   N lines: nested paths / nested rows (not in the Gallina model): EmitSync = Emit+sink, history-free.
+//   (further families: c05b.go X E, c05c.go P NQ, c05d.go R W, c05e.go S QI, c05f.go T D)
 
 import (
 	"fmt"
@@ -246,6 +247,7 @@ func runC05(tier string, seed uint64, o *Out) error {
 	c05Paths(tier, seed, o)
 	c05Output(tier, seed, o)
 	c05Selected(tier, seed, o)
+	c05Typed(tier, seed, o)
 	return nil
 }
 
